@@ -391,8 +391,11 @@ func (h *HttpServer) sealToken(version byte, payload interface{}, aad []byte) ([
 
 // openToken reverses sealToken into out (a pointer to the token struct).
 func (h *HttpServer) openToken(version byte, token []byte, aad []byte, out interface{}) error {
-	raw, err := base64.StdEncoding.DecodeString(string(token))
-	if err != nil {
+	raw, err := base64.StdEncoding.Strict().DecodeString(string(token))
+	// Only the exact text sealToken produced is a token. Go's decoder skips
+	// CR/LF (even in strict mode) and the lenient one also ignores non-zero
+	// trailing bits, so several texts would otherwise name one envelope.
+	if err != nil || base64.StdEncoding.EncodeToString(raw) != string(token) {
 		return &RpcError{Type: "RuntimeError", Message: "Malformed state token"}
 	}
 	if len(raw) < stateTokenMinLen {
